@@ -140,7 +140,27 @@ pub fn oracle(c: &PuCtx, rec: &mut Rec) {
                             rec.viol_kf("C02_ss_first_deposit_overmint", key, format!("first deposit {:?}: supply {s1} > exact D {} + 2", r1, &d1 / &unit));
                         }
                     } else {
-                        let d0 = d_exact_k(&pre_p.pool_info).unwrap();
+                        // a single-asset deposit is a swap of half followed by a two-asset deposit (C14 checks that
+                        // equivalence, C03 judges the swap leg): the mint is judged against the pool as the swap leaves it
+                        let mut base_info = pre_p.pool_info.clone();
+                        if funds.len() == 1 {
+                            let other = pre_p.pool_info.assets.iter().find(|x| x.denom != funds[0].0).map(|x| x.denom.clone());
+                            if let (Some(other), PuOp::Provide { swap_slip, .. }) = (other, c.op) {
+                                let cfgw = cfg();
+                                let after = crate::engine::with_scratch(&cfgw, c.s0, |w2| {
+                                    let o = apply(w2, &PuOp::Swap { u: *u, pool: pool.clone(), offer: vec![(funds[0].0.clone(), funds[0].1 / 2)], ask: other, slip: *swap_slip, belief: None, recv: None });
+                                    if o.is_ok() { observe_pool(w2, pool) } else { None }
+                                });
+                                match after {
+                                    Some(p) => base_info = p.pool_info,
+                                    None => {
+                                        rec.count("c02_single_asset_swap_leg_not_reproducible");
+                                        return;
+                                    }
+                                }
+                            }
+                        }
+                        let d0 = d_exact_k(&base_info).unwrap();
                         let d0m = &d0 - &two;
                         if d0m > BigInt::from(0) {
                             // minted/S0 <= (D1 - D0)/D0 with D known to within two units, plus one LP unit of rounding
